@@ -557,7 +557,11 @@ func runR157(c *core.Ctx, rule string) {
 	}
 	// constructors that can return a non-nil handler together with an error
 	var dirty []string
+	wired := wiredHandlerConstructors(c)
 	for _, fn := range c.P.RepoFuncs("") {
+		if wired != nil && !wired[fn] {
+			continue // not a constructor the proxy (app/memproxy.go) hands to the accept loop
+		}
 		sig := fn.Signature
 		if sig.Params().Len() != 0 || sig.Results().Len() != 2 || ssax.ShortType(sig.Results().At(0).Type()) != "handlers.Handler" || types.TypeString(sig.Results().At(1).Type(), nil) != "error" {
 			continue
@@ -687,4 +691,60 @@ func definitelyNilOn(e ssa.Value, b *ssa.BasicBlock) bool {
 		}
 	}
 	return true
+}
+
+// wiredHandlerConstructors: the handler-constructor functions app/memproxy.go can hand to server.ListenAndServe (the
+// closures returned by the factories it calls, and plain functions it passes). nil when main cannot be analysed.
+func wiredHandlerConstructors(c *core.Ctx) map[*ssa.Function]bool {
+	app, err := c.P.LoadApp("memproxy.go")
+	if err != nil {
+		return nil
+	}
+	mainFn := app.SSA.Func("main")
+	if mainFn == nil {
+		return nil
+	}
+	out := map[*ssa.Function]bool{}
+	pv := &ssax.Prov{}
+	var add func(v ssa.Value, d int)
+	add = func(v ssa.Value, d int) {
+		if v == nil || d > 6 {
+			return
+		}
+		for _, dd := range ssax.Defs(v) {
+			switch x := ssax.Unwrap(dd).(type) {
+			case *ssa.Function:
+				out[x] = true
+			case *ssa.MakeClosure:
+				out[x.Fn.(*ssa.Function)] = true
+			case *ssa.ChangeType:
+				add(x.X, d+1)
+			case *ssa.Call:
+				if f := x.Call.StaticCallee(); f != nil {
+					for _, r := range ssax.Returns(f) {
+						if len(r.Results) > 0 {
+							add(r.Results[0], d+1)
+						}
+					}
+				}
+			case *ssa.Phi:
+				for _, e := range x.Edges {
+					add(e, d+1)
+				}
+			}
+		}
+	}
+	_ = pv
+	ssax.Instrs(mainFn, func(ins ssa.Instruction) {
+		cc := ssax.CallOf(ins)
+		if cc == nil || ssax.CalleeName(cc) != core.Mod+"/server.ListenAndServe" || len(cc.Args) < 6 {
+			return
+		}
+		add(cc.Args[4], 0)
+		add(cc.Args[5], 0)
+	})
+	if len(out) == 0 {
+		return nil
+	}
+	return out
 }
